@@ -718,3 +718,74 @@ package mocker
 //@   ensures mocks_the_variable_it_was_given: result != nil && (typeof(result) == typeid(*defaultVarMocker) ==> unbox(result, *defaultVarMocker) != nil && rv_pointer(unbox(result, *defaultVarMocker).targetValue) == rv_pointer(value_of(v)))
 //@   ensures cache_kept: var_cache_inv(b)
 //@   panics_only_if not_a_pointer: true
+
+// ---- C07/C12/C13 at the mocker layer: the interface path -------------------------------------------------------------------
+//@ pure func iface_ctx_ok(ctx *iface.IContext) bool = ctx != nil && ctx.p != nil && ctx.p.ifaceCache != nil && 0 <= len(ctx.p.retained) && len(ctx.p.retained) < 0x10000
+//@   | && (forall k string :: has(ctx.p.ifaceCache, k) ==> ctx.p.ifaceCache[k] != nil && ctx.p.ifaceCache[k].Tab != nil) && stub.holder_wf()
+//@ func (i *iFaceMockGuard) Apply
+//@   props C07 C12
+//@   assigns nothing
+//@ func (m *baseMocker) applyByIFaceMethod
+//@   props C07 C12 C13
+//@   safety nonil
+//@   requires receiver: m != nil && callback != nil && iFace != nil
+//@   requires context: iface_ctx_ok(ctx)
+//@   assume reflect_model_fact: rt_kind(rt_of(typeof(callback))) == reflect.Func && rt_numin(rt_of(typeof(callback))) >= 1
+//@   assigns stub.placeHolderIns.off, ticket_lo, ticket_hi, textmem, perm, rw_wheld[addr(memory.memoryAccessLock)], ctx.p.proxyFunc, ctx.p.retained,
+//@     | ctx.p.retained[len(ctx.p.retained) : cap(ctx.p.retained)], unexports2.symTable, unexports2.symTableLoadError, unexports2.funcAlignment, unexports2.varAlignment,
+//@     | ctx.p.originIface, ctx.p.originIfaceValue, mapof(ctx.p.ifaceCache), anyfield(hack.Iface, Tab), anyfield(hack.Iface, Data), anyfield(hack.Itab, Fun), m.guard, m.imp
+//@   ensures variable_holds_the_mock: proxy.var_of(iFace).Tab != nil && proxy.var_of(iFace).Data == ctx
+//@   ensures recorded: m.imp == callback && m.guard != nil && typeof(m.guard) == typeid(*iFaceMockGuard) && unbox(m.guard, *iFaceMockGuard) != nil && unbox(m.guard, *iFaceMockGuard).ctx == ctx
+//@   ensures callback_anchored: len(ctx.p.retained) == old(len(ctx.p.retained)) + 1
+//@   panics_only_if rejected: true
+//@   ensures_on_panic rejected_configuration_leaves_the_variable_alone: proxy.var_of(iFace).Tab == old(proxy.var_of(iFace).Tab) && proxy.var_of(iFace).Data == old(proxy.var_of(iFace).Data)
+
+//@ func (m *DefaultInterfaceMocker) applyByIFaceMethod
+//@   props C07 C12 C13
+//@   safety nonil
+//@   requires receiver: m != nil && m.baseMocker != nil && callback != nil && iFace != nil
+//@   requires context: iface_ctx_ok(ctx)
+//@   assume reflect_model_fact: rt_kind(rt_of(typeof(callback))) == reflect.Func && rt_numin(rt_of(typeof(callback))) >= 1
+//@   assigns stub.placeHolderIns.off, ticket_lo, ticket_hi, textmem, perm, rw_wheld[addr(memory.memoryAccessLock)], ctx.p.proxyFunc, ctx.p.retained,
+//@     | ctx.p.retained[len(ctx.p.retained) : cap(ctx.p.retained)], unexports2.symTable, unexports2.symTableLoadError, unexports2.funcAlignment, unexports2.varAlignment,
+//@     | ctx.p.originIface, ctx.p.originIfaceValue, mapof(ctx.p.ifaceCache), anyfield(hack.Iface, Tab), anyfield(hack.Iface, Data), anyfield(hack.Itab, Fun), m.baseMocker.guard, m.baseMocker.imp
+//@   ensures variable_holds_the_mock: proxy.var_of(iFace).Tab != nil && proxy.var_of(iFace).Data == ctx
+//@   ensures recorded_as_given_unless_debug_wrapped: m.baseMocker.imp == callback || logger.ConsoleLevel >= logger.DebugLevel
+//@   ensures guard_cancels_this_context: m.baseMocker.guard != nil && typeof(m.baseMocker.guard) == typeid(*iFaceMockGuard) && unbox(m.baseMocker.guard, *iFaceMockGuard) != nil && unbox(m.baseMocker.guard, *iFaceMockGuard).ctx == ctx
+//@   panics_only_if rejected: true
+//@   ensures_on_panic rejected_configuration_leaves_the_variable_alone: proxy.var_of(iFace).Tab == old(proxy.var_of(iFace).Tab) && proxy.var_of(iFace).Data == old(proxy.var_of(iFace).Data)
+
+// Apply on an interface method: the callback supersedes any earlier stub configuration and the variable holds the mock
+//@ func (m *DefaultInterfaceMocker) Apply
+//@   props C07 C12 C13
+//@   safety nonil
+//@   requires receiver: m != nil && m.baseMocker != nil && callback != nil && m.iFace != nil
+//@   requires context: iface_ctx_ok(m.ctx)
+//@   assume reflect_model_fact: rt_kind(rt_of(typeof(callback))) == reflect.Func && rt_numin(rt_of(typeof(callback))) >= 1
+//@   assigns stub.placeHolderIns.off, ticket_lo, ticket_hi, textmem, perm, rw_wheld[addr(memory.memoryAccessLock)], m.ctx.p.proxyFunc, m.ctx.p.retained,
+//@     | m.ctx.p.retained[len(m.ctx.p.retained) : cap(m.ctx.p.retained)], unexports2.symTable, unexports2.symTableLoadError, unexports2.funcAlignment, unexports2.varAlignment,
+//@     | m.ctx.p.originIface, m.ctx.p.originIfaceValue, mapof(m.ctx.p.ifaceCache), anyfield(hack.Iface, Tab), anyfield(hack.Iface, Data), anyfield(hack.Itab, Fun), m.baseMocker.guard, m.baseMocker.imp, m.baseMocker.when
+//@   ensures stale_stub_configuration_dropped: m.baseMocker.when == nil
+//@   ensures variable_holds_the_mock: proxy.var_of(m.iFace).Tab != nil && proxy.var_of(m.iFace).Data == m.ctx
+//@   ensures callback_recorded_as_given_unless_debug_wrapped: m.baseMocker.imp == callback || logger.ConsoleLevel >= logger.DebugLevel
+//@   panics_only_if rejected: true
+//@   ensures_on_panic rejected_configuration_leaves_the_variable_alone: proxy.var_of(m.iFace).Tab == old(proxy.var_of(m.iFace).Tab) && proxy.var_of(m.iFace).Data == old(proxy.var_of(m.iFace).Data)
+
+// Return on an interface method (after As): values are validated (CreateWhen) before the variable is touched; the
+// configuration is recorded only once the stub is installed
+//@ func (m *DefaultInterfaceMocker) Return
+//@   props C07 C12 C13
+//@   safety nonil
+//@   requires receiver: m != nil && m.baseMocker != nil && m.iFace != nil && len(value) < 0x10000
+//@   requires target_signature_given: m.funcDef != nil ==> rt_kind(rt_of(typeof(m.funcDef))) == reflect.Func && rt_numin(rt_of(typeof(m.funcDef))) >= 1
+//@   requires existing_configuration_well_formed: m.baseMocker.when != nil ==> when_shape(m.baseMocker.when)
+//@   requires context: iface_ctx_ok(m.ctx)
+//@   assigns stub.placeHolderIns.off, ticket_lo, ticket_hi, textmem, perm, rw_wheld[addr(memory.memoryAccessLock)], m.ctx.p.proxyFunc, m.ctx.p.retained,
+//@     | m.ctx.p.retained[len(m.ctx.p.retained) : cap(m.ctx.p.retained)], unexports2.symTable, unexports2.symTableLoadError, unexports2.funcAlignment, unexports2.varAlignment,
+//@     | m.ctx.p.originIface, m.ctx.p.originIfaceValue, mapof(m.ctx.p.ifaceCache), anyfield(hack.Iface, Tab), anyfield(hack.Iface, Data), anyfield(hack.Itab, Fun), m.baseMocker.guard, m.baseMocker.imp, m.baseMocker.when, varval, anyfield(When, matches), anyfield(When, defaultReturns), anyfield(BaseMatcher, results), m.baseMocker.when.matches[len(m.baseMocker.when.matches) : cap(m.baseMocker.when.matches)]
+//@   ensures configuration_recorded: m.baseMocker.when != nil && result == m.baseMocker.when
+//@   ensures continues_existing_configuration: old(m.baseMocker.when) != nil ==> m.baseMocker.when == old(m.baseMocker.when)
+//@   ensures variable_holds_the_mock: old(m.baseMocker.when) == nil ==> proxy.var_of(m.iFace).Tab != nil && proxy.var_of(m.iFace).Data == m.ctx
+//@   ensures too_few_return_values_rejected_up_front: old(m.baseMocker.when) == nil ==> len(value) >= rt_numout(rt_of(typeof(m.funcDef)))
+//@   panics_only_if rejected: true
+//@   ensures_on_panic rejected_configuration_leaves_the_variable_alone: proxy.var_of(m.iFace).Tab == old(proxy.var_of(m.iFace).Tab) && proxy.var_of(m.iFace).Data == old(proxy.var_of(m.iFace).Data)
